@@ -274,7 +274,11 @@ impl CompactionHandover {
                 );
             }
 
+            #[cfg(sneldb_verif)]
+            crate::verif_hooks::step_async("handover.before_save").await;
             index.save(&self.shard_dir).await?;
+            #[cfg(sneldb_verif)]
+            crate::verif_hooks::step_async("handover.saved").await;
 
             if tracing::enabled!(tracing::Level::INFO) {
                 tracing::info!(
@@ -308,6 +312,8 @@ impl CompactionHandover {
             "Updated shared segment id list"
         );
 
+        #[cfg(sneldb_verif)]
+        crate::verif_hooks::step("handover.live_updated");
         self.invalidate_caches(&drained_labels);
 
         Ok(drained_labels)
@@ -334,6 +340,8 @@ impl CompactionHandover {
             return;
         }
 
+        #[cfg(sneldb_verif)]
+        crate::verif_hooks::reclaim_scheduled();
         let shard_dir = self.shard_dir.clone();
         let shard_id = self.shard_id;
         tokio::spawn(async move {
@@ -384,6 +392,8 @@ impl CompactionHandover {
                     "Failed to move retired segment into reclaim directory"
                 );
             }
+            #[cfg(sneldb_verif)]
+            crate::verif_hooks::step("reclaim.renamed");
         }
 
         for label in &retired {
@@ -396,6 +406,8 @@ impl CompactionHandover {
                     warn!(target: "compaction_handover::reclaim", shard = shard_id, %label, error = %err, "Leaving reclaimed directory for future cleanup")
                 }
             }
+            #[cfg(sneldb_verif)]
+            crate::verif_hooks::step("reclaim.deleted");
         }
 
         match fs::remove_dir(&batch_dir) {
@@ -408,6 +420,8 @@ impl CompactionHandover {
             }
         }
 
+        #[cfg(sneldb_verif)]
+        crate::verif_hooks::reclaim_done();
         Ok(())
     }
 }
